@@ -212,7 +212,13 @@ def _try_only_iterates(n: ast.Try) -> bool:
             val = s.value
             if val is None or not all(isinstance(t, ast.Name) for t in tgts):
                 return False
-            if any(isinstance(c, ast.Call) for c in ast.walk(val)):
+            def total(c):
+                # calls that fail with TypeError exactly when the value is not iterable (and never otherwise)
+                if isinstance(c.func, ast.Name) and c.func.id in ('list', 'tuple', 'zip', 'iter', 'enumerate') and not c.keywords:
+                    return True
+                return isinstance(c.func, (ast.Attribute, ast.Name)) and (c.func.attr if isinstance(c.func, ast.Attribute) else c.func.id) == 'repeat' \
+                    and len(c.args) == 1 and not c.keywords
+            if any(isinstance(c, ast.Call) and not total(c) for c in ast.walk(val)):
                 return False
             if isinstance(val, ast.List) and not val.elts:
                 local_lists |= {t.id for t in tgts}
